@@ -134,8 +134,13 @@ def coq_property_file(pid, timeout=900):
 
 
 def _coq_eval_file(path):
-    r = subprocess.run(["coqc", "-Q", COQ, "PV", path], stdout=subprocess.PIPE, stderr=subprocess.STDOUT,
-                       text=True, timeout=3000, cwd=os.path.dirname(path))
+    for attempt in range(3):
+        r = subprocess.run(["coqc", "-Q", COQ, "PV", path], stdout=subprocess.PIPE, stderr=subprocess.STDOUT,
+                           text=True, timeout=3000, cwd=os.path.dirname(path))
+        # a coqc killed by the OOM killer / a signal leaves no "Error" text: retry (machine load), never on a real error
+        if r.returncode == 0 or "Error" in r.stdout:
+            break
+        time.sleep(2 + 5 * attempt)
     return r.returncode, r.stdout
 
 
